@@ -64,6 +64,25 @@ void harness(void) {
 	/* and it is the CRC-32 of the reference definition */
 	CHECK(KSI_crc32(a, NBYTES, 0) == c17_crc32(a, NBYTES, NBYTES), "C17.H3 KSI_crc32 = bitwise reflected CRC-32 (short inputs)");
 	if (a[0] == 0x31 && b[0] == 0x80) WITNESS_POINT("affine");
+#elif LEMMA == 0
+	/* the direct query (kept for the record; it is NOT part of the plan because it does not finish):
+	 * symbolic data, valid checksum, one symbol replaced -> the checksum test must fail */
+#define NSYMS0 ((8 * NBYTES + 4) / 5)
+	u8 m[NBYTES];
+	for (unsigned i = 0; i + 4 < NBYTES; i++) m[i] = ND(u8, d);
+	unsigned long c0 = KSI_crc32(m, NBYTES - 4, 0);
+	for (unsigned i = 0; i < 4; i++) m[NBYTES - 4 + i] = (u8)(c0 >> (8 * (3 - i)));
+	unsigned pos0 = ND(unsigned, pos); u8 diff0 = ND(u8, diff);
+	ASSUME(diff0 >= 1 && diff0 <= 31 && pos0 < NSYMS0);
+	int changed = 0;
+	for (unsigned i = 0; i < NBYTES; i++) {
+		unsigned byte = 0;
+		for (unsigned k = 0; k < 8; k++) { unsigned g = 8 * i + k; byte = (byte << 1) | ((g / 5 == pos0) ? ((diff0 >> (4 - g % 5)) & 1u) : 0u); }
+		m[i] ^= (u8)byte; if (byte) changed = 1;
+	}
+	unsigned long st = ((unsigned long)m[NBYTES - 4] << 24) | ((unsigned long)m[NBYTES - 3] << 16) | ((unsigned long)m[NBYTES - 2] << 8) | m[NBYTES - 1];
+	if (changed) CHECK(KSI_crc32(m, NBYTES - 4, 0) != st, "C17.H3 direct: a corrupted symbol fails the checksum test");
+	WITNESS_POINT("direct query");
 #elif LEMMA == 5
 #ifndef KIND
 #define KIND 1
